@@ -33,14 +33,14 @@ func roundTrip(reg *registry, c *ctor, v bin.Object) (res rtResult) {
 	var enc bin.Buffer
 	pv, stack := mon.Try(func() {
 		if err := v.Encode(&enc); err != nil {
-			res.sig, res.detail = "roundtrip|encode-error|"+c.name, err.Error()
+			res.sig, res.detail = "roundtrip|encode-error|"+innermostCtor(reg, c.pkg, err.Error(), c.name), err.Error()
 			return
 		}
 		res.encoded = append([]byte(nil), enc.Buf...)
 		dst := reg.skeleton(v)
 		in := bin.Buffer{Buf: append([]byte(nil), enc.Buf...)}
 		if err := dst.Decode(&in); err != nil {
-			res.sig, res.detail = "roundtrip|decode-error|"+c.name, err.Error()
+			res.sig, res.detail = "roundtrip|decode-error|"+innermostCtor(reg, c.pkg, err.Error(), c.name), err.Error()
 			return
 		}
 		if in.Len() != 0 {
@@ -56,7 +56,7 @@ func roundTrip(reg *registry, c *ctor, v bin.Object) (res rtResult) {
 		}
 		var enc2 bin.Buffer
 		if err := dst.Encode(&enc2); err != nil {
-			res.sig, res.detail = "roundtrip|reencode-error|"+c.name, err.Error()
+			res.sig, res.detail = "roundtrip|reencode-error|"+innermostCtor(reg, c.pkg, err.Error(), c.name), err.Error()
 			return
 		}
 		if !bytes.Equal(enc.Buf, enc2.Buf) {
